@@ -47,6 +47,9 @@ Inductive case :=
 | CLookup (s : side) (refs : list ref) (seed_contacted other_saw : bool)
 | CWrite (is_provide : bool) (wan_n lan_n : nat) (own : list maddr)
          (wan_saw lan_saw wan_wrote lan_wrote : bool) (wan_adv lan_adv : list nat) (err : list nat)
+| CProvideLocal (wan_n lan_n : nat) (in_wan in_lan ok sent : bool)
+  (* Provide without announcing: which inner provider store recorded this node, did the call succeed,
+     did any request leave the node *)
 | CGet (wan lan : option nat * option err) (dval : option nat) (derr : list nat)
 | CFindPeer (wresp lresp : list maddr) (wA : list nat) (wErr : option err) (lA : list nat) (lErr : option err)
             (dA : list nat) (dErr : list nat)
@@ -244,6 +247,10 @@ Definition verdict (c : case) : nat :=
   | CAddr a o n r e pq vq wa la pr vr => v_addr a o n r e pq vq wa la pr vr
   | CLookup s refs sc os => v_lookup s refs sc os
   | CWrite p wn ln own ws ls ww lw wa la e => v_write p wn ln own ws ls ww lw wa la e
+  | CProvideLocal wn ln iw il ok sent =>
+      (* routed to the WAN DHT exactly when its routing table is non-empty; recorded there and only there;
+         nothing is sent *)
+      if ok && negb sent && Bool.eqb iw (0 <? wn)%nat && Bool.eqb il (wn =? 0)%nat then 0 else 2
   | CGet w l dv de => v_get w l dv de
   | CFindPeer wr lr wA wE lA lE dA dE => v_findpeer wr lr wA wE lA lE dA dE
   | CProv c o w l out => v_prov c o w l out
